@@ -514,19 +514,27 @@ func Portfolio(conj []*Term, vars []*Term, timeout time.Duration, ps *PortfolioS
 		vals  []uint64
 		who   string
 	}
+	secs := fmt.Sprint(int(timeout.Seconds()) + 1)
 	cmds := [][]string{
-		{"z3-new", base},
-		{"z3", base},
-		{"cvc5", "--lang=smt2", dir + "/c.smt2"},
+		{"z3-new", "-T:" + secs, base},
+		{"z3", "-T:" + secs, base},
+		{"cvc5", "--lang=smt2", "--tlimit=" + fmt.Sprint(int(timeout.Milliseconds())+1000), dir + "/c.smt2"},
 	}
 	ch := make(chan ans, len(cmds))
 	var procs []*exec.Cmd
 	t0 := time.Now()
 	for _, c := range cmds {
 		cmd := exec.Command(c[0], c[1:]...)
+		var obuf strings.Builder
+		cmd.Stdout = &obuf
+		if err := cmd.Start(); err != nil {
+			ch <- ans{res: "unknown", who: c[0]}
+			continue
+		}
 		procs = append(procs, cmd)
-		go func(cmd *exec.Cmd, who string) {
-			out, _ := cmd.Output()
+		go func(cmd *exec.Cmd, who string, obuf *strings.Builder) {
+			cmd.Wait()
+			out := obuf.String()
 			lines := strings.Split(strings.TrimSpace(string(out)), "\n")
 			a := ans{res: "unknown", who: who}
 			if len(lines) > 0 {
@@ -545,7 +553,7 @@ func Portfolio(conj []*Term, vars []*Term, timeout time.Duration, ps *PortfolioS
 				}
 			}
 			ch <- a
-		}(cmd, c[0])
+		}(cmd, c[0], &obuf)
 	}
 	res, who := "unknown", ""
 	var vals []uint64
